@@ -331,7 +331,7 @@ Section ApiProofs.
         destruct Ha as [_ [[-> _] | [Hr1 [_ [Hi1' [_ [Hg1 _]]]]]]]; auto.
         destruct Hb as [_ [[-> _] | [Hr2 [_ [Hi2' [_ [Hg2 _]]]]]]]; auto.
         right; right. split; [congruence|].
-        assert (r1 = r2) by congruence. subst r2.
+        rewrite Hr2, <- Hr1.
         destruct (restore_on_error pol); [destruct (returns Value Exc r1)|];
           split; simpl; congruence.
       + inversion H1; inversion H2; subst. right; right. split; auto.
